@@ -312,6 +312,10 @@ class Inliner:
                             rf = ref_functions().get(rp)
                             if rf is None or al.name in rf:
                                 continue
+                            # a function that merely moved here from another module (it exists in the reference under the same name) is
+                            # not a new helper: it is grafted back (index._graft_moved_functions), never inlined
+                            if any(al.name in fns for fns in ref_functions().values()):
+                                continue
                             other = loader(rp)
                             if other is None:
                                 continue
